@@ -76,7 +76,8 @@ def effect_default(sem):
         if k == 'style':
             r = (k, r[1], norm_decls(r[2]))
         elif k == 'page':
-            r = (k, r[1], norm_decls(r[2]), tuple((m, norm_decls(d)) for m, d in r[3]))
+            # (a margin box without declarations is an empty rule: not written under the default preferences)
+            r = (k, r[1], norm_decls(r[2]), tuple((m, norm_decls(d)) for m, d in r[3] if norm_decls(d)))
         elif k == 'font-face':
             r = (k, norm_decls(r[1]))
         if k == 'style' and not r[2]:
@@ -160,7 +161,7 @@ def edit(rng, sheet):
     import cssutils
     ops = []
     for _ in range(rng.randrange(1, 5)):
-        k = rng.randrange(6)
+        k = rng.randrange(7)
         rules = list(sheet.cssRules)
         styles = [r for r in rules if r.type == r.STYLE_RULE]
         try:
@@ -185,6 +186,20 @@ def edit(rng, sheet):
                 r = rng.choice(styles)
                 r.selectorText = rng.choice(['a, b > c', 'div#x.y:hover', '*[a="b c"]::before'])
                 ops.append('selectorText')
+            elif k == 6 and styles:
+                # an existing declaration (important or not) set again with the other priority, or cleared
+                r = rng.choice(styles)
+                ps = r.style.getProperties(all=True)
+                if ps:
+                    p_ = rng.choice(ps)
+                    how = rng.randrange(3)
+                    if how == 0:
+                        r.style.setProperty(p_.name, '7px', '' if p_.priority else 'important')
+                    elif how == 1:
+                        p_.priority = '' if p_.priority else 'important'
+                    else:
+                        r.style.setProperty(p_.name, '8px')
+                    ops.append('priority-flip')
             elif k == 5:
                 t = rng.choice(['@variables { ev: 1px }', '@namespace eq "http://e";', '@import "e.css" print;', '@charset "utf-8";',
                                 '@page :left { margin: 1cm }', '@font-face { font-family: e }', '/*e*/', '@media tv { e { left: 0 } }'])
@@ -382,7 +397,8 @@ def run(ctx):
     namespace_family(ctx, rng, 40 if quick else 1500)
     # unknown at-rules holding brace characters as string / url content; comments and strings with characters the
     # sheet's own encoding cannot represent (written as escapes, read back as the characters)
-    for text in ['@x "{" "}";', '@x "{" y; a{b:c}', '@x url({) b; a{b:c}', '@x url("}") b;', '@counter x { prefix: "{"; suffix: "}" } a{b:c}',
+    for text in ['@page { margin: 0; @top-left {} }', '@page { margin: 0; @top-left { } @bottom-left { left: 0 } }', '@page :first { @top-left {} }',
+                 '@page { margin: 0; @top-left { /*only*/ } } a{b:c}', '@x "{" "}";', '@x "{" y; a{b:c}', '@x url({) b; a{b:c}', '@x url("}") b;', '@counter x { prefix: "{"; suffix: "}" } a{b:c}',
                  '@media tv{@x "{" y; a{b:c}} d{e:f}', '@x ("{") ["}"] {"{"} a{b:c}', '@x "a{b" "}c";',
                  '@charset "ascii"; /* gr\xfcn */ a{b:c}', '@charset "ascii"; a{/* \xfc */ b: c /* \u4e2d */ d} /*\U0001f600*/',
                  '@charset "iso-8859-1"; /* \u4e2d\xfc */ @media tv{/* \u20ac */ a{b:"\u20ac"}}', '@charset "ascii"; a{b:"gr\xfcn"; c: url(gr\xfcn.png)} .gr\xfcn{d:e}']:
